@@ -18,13 +18,13 @@ RULE = ('one op per shipped code and kind (code words, tableau generators, per-e
         'with n<=5 (6 thorough), d<=4, weight_z in a dyadic set for make_asymmetric_error_set, plus seeded random Clifford circuits through '
         'the gate-level state-vector model. Non-trivial = the output is not a constant/empty line; distinct = distinct op lines.')
 TRUSTED = ['Lean 4.33 kernel', 'axioms: propext, Classical.choice, Quot.sound', 'Lean compiler for the driver executable',
-           'harness/c19.py translator (gate classification by exact array comparison, AST extraction of the listed strings) and canonicalisation',
-           'modelled, not verified: numqi/qec/_qecc.py, qec/_internal.py, sim/circuit.py gate application (tied exactly on every run)']
+           'harness/c19.py translator (executes the generators; gate classification by exact array comparison; listed strings observed at run time, AST list literal as fallback) and canonicalisation',
+           'modelled, not verified: the numqi.qec generators/parser/error sets/VarQEC and sim/circuit.py gate application (tied exactly on every run)']
 
 GEN_PATH = os.path.join(common.LEAN, 'NumqiModel', 'Generated', 'QecCircuits.lean')
 
 # The shipped codes and their advertised parameters ((n, K, d)), pinned here and in NumqiProps/C19.lean (`codeXXX_params`):
-# the live objects must report exactly these.  Generators are *discovered* (dir(numqi.qec) + AST of _qecc.py); one that is
+# the live objects must report exactly these.  Generators are *discovered* (dir of numqi.qec and of its modules + AST of the package sources); one that is
 # not in this table is still translated and probed, and `generators_covered` in C19.lean then fails (uncovered generator).
 PINNED = {
     'generate_code523': ('code523', (5, 2, 3)),
@@ -36,28 +36,58 @@ PINNED = {
     'generate_code10_4_4': ('code10_4_4', (10, 4, 4)),
     'generate_code11_2_5': ('code11_2_5', (11, 2, 5)),
 }
+# number of stabilizer strings each shipped generator lists (a later version may list more, not fewer); n - log2 K except for
+# ((6,4,2)) (2 of 4) and ((8,8,3)) (4 of 5)
+LISTED_COUNT = {'code523': 4, 'code422': 3, 'code442': 2, 'code642': 2, 'code883': 4, 'code8_64_2': 2, 'code10_4_4': 8, 'code11_2_5': 10}
 # (function name, Lean constant) in translation order; extended by `discover_generators`
 CODES = [(f, l) for f, (l, _) in PINNED.items()]
 
 
+def qec_modules():
+    """numqi.qec and every loaded module below it (whatever the private modules are called)"""
+    import sys, numqi
+    mods = [numqi.qec]
+    for name in sorted(sys.modules):
+        m = sys.modules[name]
+        if name.startswith('numqi.qec.') and m is not None and m not in mods:
+            mods.append(m)
+    return mods
+
+
+def qec_source_files():
+    """the .py files of the numqi/qec package of the tree under test"""
+    import glob
+    return sorted(glob.glob(os.path.join(common.REPO, 'python', 'numqi', 'qec', '*.py')))
+
+
 def get_generator(fname):
+    """the public `numqi.qec.<fname>`; when that name is gone, the same name in any module of the package"""
+    for m in qec_modules():
+        g = getattr(m, fname, None)
+        if callable(g):
+            return g
+    raise AttributeError(f'no callable {fname} in numqi.qec or its modules')
+
+
+def is_public(fname):
     import numqi
-    return getattr(numqi.qec, fname, None) or getattr(numqi.qec._qecc, fname)
+    return callable(getattr(numqi.qec, fname, None))
 
 
 def discover_generators():
-    """every public `generate_code*` of numqi.qec (except the helper generate_code_np) and every such function defined in _qecc.py"""
-    import numqi, re
-    names = {x for x in dir(numqi.qec) if x.startswith('generate_code') and x != 'generate_code_np' and callable(getattr(numqi.qec, x, None))}
-    try:
-        tree = ast.parse(open(os.path.join(common.REPO, 'python', 'numqi', 'qec', '_qecc.py')).read())
-        names |= {fn.name for fn in tree.body if isinstance(fn, ast.FunctionDef) and fn.name.startswith('generate_code')}
-    except Exception:
-        pass
-    for sub in ('_qecc',):
-        mod = getattr(numqi.qec, sub, None)
-        if mod is not None:
-            names |= {x for x in dir(mod) if x.startswith('generate_code') and x != 'generate_code_np' and callable(getattr(mod, x, None))}
+    """every `generate_code*` (except the helper generate_code_np): public names of numqi.qec, names in every loaded module
+    of the package, and top-level functions in the AST of every source file of the package"""
+    import re
+    isgen = lambda x: x.startswith('generate_code') and x != 'generate_code_np'
+    names = set()
+    for m in qec_modules():
+        names |= {x for x in dir(m) if isgen(x) and callable(getattr(m, x, None))}
+    for path in qec_source_files():
+        try:
+            tree = ast.parse(open(path).read())
+            names |= {fn.name for fn in tree.body if isinstance(fn, ast.FunctionDef) and isgen(fn.name)}
+        except Exception:
+            pass
     out = []
     for f in sorted(names):
         if f in PINNED:
@@ -114,67 +144,105 @@ def gate_tok(g):
 
 
 def listed_strings_from_source():
-    """the Pauli strings written in each generate_code* function of _qecc.py (AST), keyed by function name"""
-    path = os.path.join(common.REPO, 'python', 'numqi', 'qec', '_qecc.py')
+    """every list literal of equal-length I/X/Y/Z words written in a `generate_code*` function of the package sources (AST),
+    keyed by function name: {fname: [list, ...]}.  Independent of the parser and of how the list is consumed."""
     out = {}
-    try:
-        tree = ast.parse(open(path).read())
-    except Exception:
-        return out
-    for fn in tree.body:
-        if not isinstance(fn, ast.FunctionDef) or not fn.name.startswith('generate_code'):
+    for path in qec_source_files():
+        try:
+            tree = ast.parse(open(path).read())
+        except Exception:
             continue
-        lists = {}
-        used = None
-        for node in ast.walk(fn):
-            if isinstance(node, ast.Assign) and len(node.targets) == 1 and isinstance(node.targets[0], ast.Name) and isinstance(node.value, ast.List) \
-                    and node.value.elts and all(isinstance(e, ast.Constant) and isinstance(e.value, str) for e in node.value.elts):
-                lists[node.targets[0].id] = [e.value for e in node.value.elts]
-            if isinstance(node, ast.Assign) and isinstance(node.targets[0], ast.Subscript) and isinstance(node.value, ast.ListComp):
-                sl = node.targets[0].slice
-                if isinstance(sl, ast.Constant) and sl.value == 'stabilizer':
-                    gen = node.value.generators[0]
-                    if isinstance(gen.iter, ast.Name):
-                        used = gen.iter.id
-        if used is not None and used in lists:
-            out[fn.name] = lists[used]
+        for fn in tree.body:
+            if not isinstance(fn, ast.FunctionDef) or not fn.name.startswith('generate_code'):
+                continue
+            cands = []
+            for node in ast.walk(fn):
+                if isinstance(node, (ast.List, ast.Tuple)) and node.elts and all(isinstance(e, ast.Constant) and isinstance(e.value, str) for e in node.elts):
+                    ws = [e.value for e in node.elts]
+                    if len({len(w) for w in ws}) == 1 and all(w and set(w) <= set('IXYZ') for w in ws) and ws not in cands:
+                        cands.append(ws)
+            if cands:
+                out.setdefault(fn.name, [])
+                out[fn.name] += [c for c in cands if c not in out[fn.name]]
     return out
 
 
-def run_generator_recording(gen):
+def ast_listed(listed_ast, fname, n, ncirc):
+    """the unique AST list of `ncirc` words of length n of that generator, else None"""
+    c = [ws for ws in (listed_ast or {}).get(fname, []) if len(ws) == ncirc and len(ws[0]) == n]
+    return c[0] if len(c) == 1 else None
+
+
+class ConstructorError(Exception):
+    pass
+
+
+def parser_objects():
+    """the function objects that are `parse_simple_pauli` of the tree under test (public name first)"""
+    objs = []
+    for m in qec_modules():
+        f = getattr(m, 'parse_simple_pauli', None)
+        if callable(f) and not any(f is o for o in objs):
+            objs.append(f)
+    return objs
+
+
+def run_generator_recording(gen, listed_ast=None, fname=None):
     """execute a generator of the tree under test and read what it builds.  The Pauli strings it lists are observed at run
     time: (1) a list/tuple of strings of the right length stored in the returned dict, else (2) the `str0` arguments of the
-    calls to `parse_simple_pauli` made while the generator runs (one per stabilizer circuit).  Independent of how the
-    source is spelled.  Returns (code, strings or None, how)."""
-    import numqi
-    Q = numqi.qec._qecc
+    calls to `parse_simple_pauli` made while the generator runs (one per stabilizer circuit; the parser is spied on under
+    *every* name it has in the generator's globals and in the modules of numqi.qec), else (3) the unique list literal of the
+    right shape in the generator's source (AST), else (4) read off the circuits.  Independent of how the source is spelled
+    and of the names of the private modules.  A failure of the recorder never counts as a failure of the constructor:
+    only an exception raised by `gen()` itself is a `ConstructorError`.  Returns (code, strings or None, how)."""
     recorded = []
-    orig = Q.parse_simple_pauli
-
-    def spy(str0, *a, **kw):
-        recorded.append(str0)
-        return orig(str0, *a, **kw)
-    Q.parse_simple_pauli = spy
-    pub = getattr(numqi.qec, 'parse_simple_pauli', None)
+    patched = []      # (namespace dict, key, original)
     try:
-        if pub is orig:
-            numqi.qec.parse_simple_pauli = spy
-        code = gen()
+        targets = parser_objects()
+        spaces = [vars(m) for m in qec_modules()]
+        g = getattr(gen, '__globals__', None)
+        if isinstance(g, dict) and not any(g is sp for sp in spaces):
+            spaces.append(g)
+
+        def make_spy(orig):
+            def spy(str0, *a, **kw):
+                recorded.append(str0)
+                return orig(str0, *a, **kw)
+            spy.__wrapped__ = orig
+            return spy
+        spies = {id(o): make_spy(o) for o in targets}
+        for sp in spaces:
+            for k_, v in list(sp.items()):
+                if callable(v) and id(v) in spies and any(v is o for o in targets):
+                    patched.append((sp, k_, v))
+                    sp[k_] = spies[id(v)]
+    except Exception:
+        pass
+    try:
+        try:
+            code = gen()
+        except Exception as e:
+            raise ConstructorError(f'{type(e).__name__}: {e}')
     finally:
-        Q.parse_simple_pauli = orig
-        if pub is orig:
-            numqi.qec.parse_simple_pauli = orig
+        for sp, k_, v in patched:
+            sp[k_] = v
     ncirc = len(code['stabilizer'])
     for k_, v in code.items():
         if k_ not in ('name',) and isinstance(v, (list, tuple)) and len(v) == ncirc and ncirc > 0 and all(isinstance(x, str) for x in v):
             return code, [str(x) for x in v], f'dict key {k_!r}'
     if len(recorded) == ncirc and ncirc > 0 and all(isinstance(x, str) for x in recorded):
         return code, list(recorded), 'parse_simple_pauli arguments'
-    # last resort: the strings are not observable (the generator does not go through the module-level parser): read each
-    # string off its circuit when that circuit consists of X/Y/Z gates on distinct qubits.  The obligation "circuit = listed
-    # string" is then vacuous for this code (noted in the evidence); "listed strings fix the code words" keeps its meaning.
     try:
         n = int(code['num_qubit'])
+    except Exception:
+        n = None
+    # the parser was not observable (the generator reaches it through a path that is not a module global): the list literal of the source
+    fromast = ast_listed(listed_ast, fname, n, ncirc) if n is not None and ncirc > 0 else None
+    if fromast is not None:
+        return code, list(fromast), f'list literal in the source (AST; {len(recorded)} parse_simple_pauli calls observed for {ncirc} circuits)'
+    # last resort: read each string off its circuit when that circuit consists of X/Y/Z gates on distinct qubits.  The obligation
+    # "circuit = listed string" is then vacuous for this code (noted in the evidence); "listed strings fix the code words" keeps its meaning.
+    try:
         derived = []
         for circ in code['stabilizer']:
             w = ['I'] * n
@@ -192,32 +260,45 @@ def run_generator_recording(gen):
 
 
 def load_codes():
-    """instantiate every shipped code from the tree under common.REPO; returns {lean_name: dict or None}"""
+    """instantiate every shipped code from the tree under common.REPO; returns {lean_name: dict or None}.
+    `error_kind` of a failed entry: 'constructor' (the generator itself raised: a failing input when it is a public name)
+    or 'translator' (this harness could not read the result: a broken tie, never a failing input)."""
     import numqi
     src = os.path.realpath(os.path.dirname(numqi.__file__))
     want = os.path.realpath(os.path.join(common.REPO, 'python', 'numqi'))
     if src != want:
         raise RuntimeError(f'numqi imported from {src}, expected {want}')
-    listed_ast = listed_strings_from_source()      # secondary cross-check only (its failure is a note)
+    try:
+        listed_ast = listed_strings_from_source()
+    except Exception:
+        listed_ast = {}
     res = {}
     discovered, extras = discover_generators()
     CODES[:] = [(f, l) for f, (l, _) in PINNED.items()] + extras
     res['__discovered__'] = discovered
+    res['__public__'] = [f for f in discovered if is_public(f)]
     for fname, lname in CODES:
         try:
             gen = get_generator(fname)
-            code, listed_rt, how = run_generator_recording(gen)
+        except Exception as e:
+            res[lname] = dict(fname=fname, lname=lname, error=f'{type(e).__name__}: {e}', error_kind='missing')
+            continue
+        try:
+            code, listed_rt, how = run_generator_recording(gen, listed_ast, fname)
             enc = [classify_gate(g, idx) for g, idx in code['encode'].gate_index_list]
             stab = [[classify_gate(g, idx) for g, idx in c.gate_index_list] for c in code['stabilizer']]
+            la = ast_listed(listed_ast, fname, int(code['num_qubit']), len(code['stabilizer']))
             res[lname] = dict(fname=fname, lname=lname, name=str(code['name']), n=int(code['num_qubit']), K=int(code['num_logical_dim']),
                               d=int(code['distance']), encode=enc, stab=stab, listed=listed_rt, listed_how=how,
-                              listed_ast=listed_ast.get(fname), live=code)
+                              listed_ast=la, live=code)
             try:
                 res[lname]['second'] = fingerprint(gen())
             except Exception:
                 res[lname]['second'] = None
-        except Exception as e:  # a constructor that raises: no data, the Lean obligations fail to build
-            res[lname] = dict(fname=fname, lname=lname, error=f'{type(e).__name__}: {e}')
+        except ConstructorError as e:  # the generator itself raises: no data, the Lean obligations fail to build
+            res[lname] = dict(fname=fname, lname=lname, error=str(e), error_kind='constructor')
+        except Exception as e:  # the result could not be read by this harness
+            res[lname] = dict(fname=fname, lname=lname, error=f'{type(e).__name__}: {e}', error_kind='translator')
     return res
 
 
@@ -265,7 +346,7 @@ def render_lean(codes):
         L.append('  listed := [' + ', '.join('[' + ', '.join(str(x) for x in l) + ']' for l in listed) + ']')
         L.append('  stabCircs := [' + ', '.join('[' + ', '.join(gate_lean(g) for g in gl) + ']' for gl in c['stab']) + ']')
         L.append('')
-    L.append('/-- every `generate_code*` function found in `numqi.qec` (introspection + AST of `_qecc.py`), sorted -/')
+    L.append('/-- every `generate_code*` function found in `numqi.qec` (introspection of the package and its modules + AST of its sources), sorted -/')
     L.append('def discovered : List String := [' + ', '.join(f'"{f}"' for f in codes.get('__discovered__', [])) + ']')
     L.append('')
     L.append('def allCodes : List (String × Code) := [' + ', '.join(f'("{n}", {n})' for n in names) + ']')
@@ -275,6 +356,12 @@ def render_lean(codes):
 
 
 _codes_cache = None
+_translated_text = None
+
+
+def text_digest(t):
+    import hashlib
+    return hashlib.sha256(t.encode()).hexdigest()
 
 
 def get_codes():
@@ -290,9 +377,15 @@ def translate(ctx):
     os.makedirs(os.path.dirname(GEN_PATH), exist_ok=True)
     old = open(GEN_PATH).read() if os.path.exists(GEN_PATH) else None
     if old != txt:
-        with open(GEN_PATH, 'w') as fh:
+        tmp = GEN_PATH + f'.tmp{os.getpid()}'
+        with open(tmp, 'w') as fh:
             fh.write(txt)
+            fh.flush(); os.fsync(fh.fileno())
+        os.replace(tmp, GEN_PATH)
         ctx.note('Generated/QecCircuits.lean rewritten (source data changed)')
+    global _translated_text
+    _translated_text = txt
+    ctx.extra['generated_sha256'] = text_digest(txt)
     cds = [v for k, v in codes.items() if not k.startswith('__')]
     ngates = sum(len(c['encode']) + sum(len(s) for s in c['stab']) for c in cds if 'error' not in c)
     nunknown = sum(1 for c in cds if 'error' not in c for g in c['encode'] + [g for s in c['stab'] for g in s] if g[0] == 'unknown')
@@ -306,11 +399,16 @@ def translate(ctx):
         if 'error' not in c and str(c.get('listed_how', '')).startswith('read off'):
             ctx.note(f'{c["fname"]}: listed strings {c["listed_how"]}; "circuit implements its listed string" is vacuous for this code in this run')
         if 'error' not in c and c.get('listed_ast') is not None and c.get('listed') is not None and c['listed_ast'] != c['listed']:
-            ctx.note(f'{c["fname"]}: the string list read from the AST of _qecc.py differs from the strings observed at run time (cross-check only)')
+            ctx.note(f'{c["fname"]}: the string list read from the AST of the package sources differs from the strings observed at run time (cross-check only)')
     if not ctx.quick():
         if THOROUGH_FILE not in THEOREM_FILES:
             THEOREM_FILES.append(THOROUGH_FILE)
         ctx.extra['theorem_files'] = list(THEOREM_FILES)
+    # right before returning (run_check builds next, under the same lock): the file on disk is this run's translation
+    ondisk = open(GEN_PATH).read()
+    if ondisk != txt:
+        raise RuntimeError('Generated/QecCircuits.lean on disk is not the translation of this run (sha256 '
+                           f'{text_digest(ondisk)[:12]} != {text_digest(txt)[:12]}): another process wrote it while the project lock was held')
 
 
 # ---------------------------------------------------------------------------
@@ -585,16 +683,91 @@ def kl_class(M, tol=1e-9):
     return 'F'
 
 
+def listed_independent_ok(c):
+    """at most n - log2 K listed strings, no non-empty sub-product a scalar (own F2 arithmetic)"""
+    listed, n, K = c.get('listed') or [], c['n'], c['K']
+    k = K.bit_length() - 1
+    if 2 ** k != K or k > n or len(listed) > n - k or not all(len(s) == n and set(s) <= set('IXYZ') for s in listed):
+        return False
+    vs = [sum(((ch in 'XY') << q) | ((ch in 'YZ') << (n + q)) for q, ch in enumerate(s)) for s in listed]
+    return f2_dependency(vs)[1] is None
+
+
+_degmat_how = {}
+_wenum_cache = {}
+
+
+class EigSpy:
+    """record the square matrices handed to any Hermitian/general eigenvalue routine of numpy/scipy while active: the
+    attributes `numpy.linalg.{eigvalsh,eigh,eigvals,eig}`, `scipy.linalg.{eigvalsh,eigh,eigvals,eig}` and every global of the
+    given namespace / of the numqi.qec modules that *is* one of these function objects (`from numpy.linalg import eigh`)."""
+    NAMES = ('eigvalsh', 'eigh', 'eigvals', 'eig')
+
+    def __init__(self, sink, extra_globals=None):
+        self.sink = sink
+        self.extra = extra_globals
+        self.patched = []
+
+    def __enter__(self):
+        try:
+            import scipy.linalg as sl
+            mods = [np.linalg, sl]
+        except Exception:
+            mods = [np.linalg]
+        targets = []
+        for m in mods:
+            for nm in self.NAMES:
+                f = getattr(m, nm, None)
+                if callable(f) and not any(f is t for t in targets):
+                    targets.append(f)
+
+        def make(orig):
+            def spy(M, *a, **kw):
+                try:
+                    A = np.array(M, copy=True)
+                    if A.ndim == 2 and A.shape[0] == A.shape[1]:
+                        self.sink.append(A)
+                except Exception:
+                    pass
+                return orig(M, *a, **kw)
+            return spy
+        spies = [(t, make(t)) for t in targets]
+        spaces = [vars(m) for m in mods]
+        try:
+            spaces += [vars(m) for m in qec_modules()]
+        except Exception:
+            pass
+        if isinstance(self.extra, dict) and not any(self.extra is sp for sp in spaces):
+            spaces.append(self.extra)
+        for sp in spaces:
+            for k_, v in list(sp.items()):
+                for t, spy in spies:
+                    if v is t:
+                        self.patched.append((sp, k_, v))
+                        sp[k_] = spy
+        return self
+
+    def __exit__(self, *exc):
+        for sp, k_, v in self.patched:
+            sp[k_] = v
+        return False
+
+
 def impl_op(op, codes):
     import numqi
     t = op.split(' ')
     k = t[1]
     if k == 'codes':
         return ' '.join(f'{l}:{codes[l]["n"]}:{codes[l]["K"]}:{codes[l]["d"]}' for _, l in CODES if l in codes and 'error' not in codes[l])
-    if k in ('cw', 'gens', 'fix', 'chk', 'ortho', 'kl', 'klval', 'degmat', 'varqec', 'scirc', 'listed', 'wenum', 'wenumk', 'checks'):
+    if k in ('cw', 'gens', 'fix', 'chk', 'ortho', 'kl', 'klval', 'degmat', 'varqec', 'scirc', 'listed', 'wenum', 'wenumk', 'checks', 'gates'):
         c = codes.get(t[2])
         if c is None or 'error' in c:
             return 'bad-op'
+        if k == 'gates':
+            # this run's translation of the live object (what `translate` wrote): the compiled driver must print the same
+            gl = lambda gs: ';'.join(gate_tok(g) for g in gs) if gs else '-'
+            ls = listed_syms(c['listed'], c['n']) if c['listed'] is not None else []
+            return ' | '.join([gl(c['encode']), ' '.join(''.join('IXYZ?'[x] for x in l) for l in ls) or '-', ' '.join(gl(g) for g in c['stab']) or '-'])
         n, K, h = c['n'], c['K'], count_h(c)
         if k == 'cw':
             return guarded(lambda: f'{h} ' + scaled_amps(real_codewords(c)[int(t[3])], h))
@@ -649,20 +822,32 @@ def impl_op(op, codes):
         if k == 'degmat':
             def f():
                 a = int(t[3])
-                captured = {}
-                orig = np.linalg.eigvalsh
-                def spy(M, *aa, **kw):
-                    captured['M'] = np.array(M, copy=True)
-                    return orig(M, *aa, **kw)
-                np.linalg.eigvalsh = spy
-                try:
-                    ev = numqi.qec.degeneracy(real_codewords(c)[a])
-                finally:
-                    np.linalg.eigvalsh = orig
-                M = captured['M'] * (2 ** h)
-                # the returned eigenvalues are those of the captured matrix (LAPACK contract, 1e-9)
-                if np.abs(np.sort(ev) - np.sort(orig(captured['M']))).max() > 1e-9:
+                cw = real_codewords(c)[a]
+                captured = []
+                with EigSpy(captured, getattr(numqi.qec.degeneracy, '__globals__', None)):
+                    ev = np.asarray(numqi.qec.degeneracy(cw))
+                # the Gram matrix through the public pieces (make_error_list(n,2)+[()], apply_gate, vdot): used when the
+                # eigenvalue routine `degeneracy` calls is not one of the spied family, and as a cross-check otherwise
+                errs = numqi.qec.make_error_list(n, distance=2) + [()]
+                vs = []
+                for e in errs:
+                    q = cw
+                    for ind, op_i in e:
+                        q = numqi.sim.state.apply_gate(q, op_i, ind)
+                    vs.append(q)
+                V = np.stack(vs)
+                Mpub = V.conj() @ V.T
+                L = len(errs)
+                cap = [m for m in captured if m.shape == (L, L)]
+                same = bool(cap) and np.abs(cap[-1] - Mpub).max() < 1e-12
+                _degmat_how[(c['lname'], a)] = ('equal to the matrix captured from the eigenvalue routine' if same else
+                                                'captured matrix differs from the public rebuild (eigenvalues tied only)' if cap else
+                                                'no eigenvalue routine of the spied family was called (eigenvalues tied only)')
+                M0 = Mpub
+                # the returned eigenvalues are those of that matrix (LAPACK contract, 1e-9)
+                if ev.shape != (L,) or np.abs(np.sort(ev.real) - np.linalg.eigvalsh(M0)).max() > 1e-9:
                     return 'eigenvalues-not-of-gram-matrix'
+                M = M0 * (2 ** h)
                 return f'{h} ' + ';'.join(','.join(gint_str(z).replace(',', '/') for z in row) for row in M)
             return guarded(f)
         if k == 'klval':
@@ -675,7 +860,13 @@ def impl_op(op, codes):
             def f():
                 K2 = int(t[3])
                 r = get_generator(c['fname'])()      # VarQEC shifts the circuit it is given in place: use a fresh one
-                model = numqi.qec.VarQEC(r['encode'], K2, numqi.qec.make_error_list(n, 2))
+                enc = r['encode']
+                if K2 == 1 or K2 > 2 ** n:
+                    # the boundary / rejection cases run on a deep copy: a large shift must never reach a circuit that a
+                    # (memoising) generator hands out again
+                    import copy
+                    enc = copy.deepcopy(enc)
+                model = numqi.qec.VarQEC(enc, K2, numqi.qec.make_error_list(n, 2))
                 code = model.get_code()
                 if code.shape != (K2, 2 ** n):
                     return f'shape:{code.shape}'
@@ -698,6 +889,8 @@ def impl_op(op, codes):
                     code = code[:int(t[3])]
                 Kc = code.shape[0]
                 A, B = numqi.qec.quantum_weight_enumerator(code)
+                if k == 'wenum' and n >= 8:
+                    _wenum_cache[c['lname']] = (np.array(A, copy=True), np.array(B, copy=True))     # ~45 s: the probe reuses this call's result
                 sc = 4 ** h
                 tr = np.trace(code.conj() @ code.T)
                 a0 = abs(tr) ** 2 * sc / 1  # K^2 4^h A_0,  A_0 = |tr Π|^2 / K^2
@@ -725,7 +918,8 @@ def impl_op(op, codes):
                 circs = c['live']['stabilizer']
                 ok3 = bool(listed) and len(circs) == len(listed) and all(
                     len(s) == n and set(s) <= set('IXYZ') and np.abs(stab_unitary(c, j) - pauli_matrix(s)).max() < 1e-9 for j, s in enumerate(listed))
-                return ''.join('1' if x else '0' for x in (ok1, ok2, ok3))
+                ok4 = listed_independent_ok(c)
+                return ''.join('1' if x else '0' for x in (ok1, ok2, ok3, ok4))
             return guarded(f)
     if k == 'errlist':
         n, d = int(t[2]), int(t[3])
@@ -879,6 +1073,7 @@ ASYM_W = [(1, 2), (1, 1), (3, 2), (2, 1), (3, 1), (3, 4), (5, 2), (1, 4)]
 
 def gen_ops(ctx, codes):
     ops = []
+    late = []
     quick = ctx.quick()
     for _, lname in CODES:
         c = codes.get(lname)
@@ -889,18 +1084,25 @@ def gen_ops(ctx, codes):
             # the 11-qubit code in the quick tier: code words, check_stabilizer, Gram matrix, listed strings
             # (tableau / circuit-unitary / KL-table ops need 2048x2048 unitaries and 31 713 errors: thorough tier)
             ops += [f'C19 cw {lname} {a}' for a in range(c['K'])]
-            ops += [f'C19 chk {lname}', f'C19 ortho {lname}', f'C19 listed {lname}', f'C19 varqec {lname} {c["K"]}']
+            ops += [f'C19 chk {lname}', f'C19 ortho {lname}', f'C19 listed {lname}', f'C19 gates {lname}', f'C19 varqec {lname} {c["K"]}']
             continue
         ops += [f'C19 cw {lname} {a}' for a in range(c['K'])]
         ops.append(f'C19 varqec {lname} {c["K"]}')
         if c['K'] >= 4:
             ops.append(f'C19 varqec {lname} 3')
+        if c['n'] <= 6:
+            # K' = 1 (no logical register); the rejection of K' > 2^n (IndexError when the diagonal is written) on the 4-qubit codes.
+            # Evaluated after every other op (`late`): VarQEC shifts the circuit it is given in place, and a tree whose generators
+            # hand out shared circuits must not turn the remaining ops into 2^(n+shift) computations
+            late.append(f'C19 varqec {lname} 1')
+            if c['n'] <= 4:
+                late.append(f'C19 varqec {lname} {2 ** c["n"] + 1}')
         if c['K'] ** 2 * 2 ** c['n'] * sum(1 for _ in all_errors(c['n'], c['d'])) <= (3e7 if quick else 4e8):
             ops.append(f'C19 klval {lname}')
         if c['n'] <= 8:
             ops += [f'C19 degmat {lname} 0', f'C19 degmat {lname} {c["K"] - 1}']
         ops += [f'C19 gens {lname}', f'C19 fix {lname}', f'C19 chk {lname}', f'C19 ortho {lname}', f'C19 kl {lname}', f'C19 scirc {lname}',
-                f'C19 listed {lname}', f'C19 checks {lname}']
+                f'C19 listed {lname}', f'C19 gates {lname}', f'C19 checks {lname}']
         if c['n'] <= 6 or (not quick and c['n'] <= 8 and c['K'] <= 8):
             ops.append(f'C19 wenum {lname}')
             if c['K'] >= 4 and c['n'] <= 6:
@@ -973,16 +1175,107 @@ def gen_ops(ctx, codes):
             ops.append(f'C19 run 3 {idx} h,0;h,1;h,2;s,0;{gate_tok(g)}')
         for s in ['XII', 'IXI', 'IIX', 'ZII', 'IZI', 'IIZ', 'YYY']:
             ops.append(f'C19 conj 3 {s} 0 {gate_tok(g)}')
+    ops += late
     return ops
+
+
+OBLIGATION_SUFFIX = ['klCheck', 'listed', 'stabCirc', 'listedIndep']     # order of the bits printed by the driver op `checks`
+
+
+def integrity(ctx, codes, ops, model):
+    """the three stages of this run looked at the same generated data: (a) the file on disk is still this run's translation
+    after the audit, (b) the driver (built in the same `lake build` as the theorems) prints this run's gate lists (op `gates`,
+    compared with the other ops), (c) each per-code obligation is discharged by the kernel exactly when the driver evaluates
+    it to true on its compiled data (a discharged theorem whose obligation the driver evaluates to false means that theorems and
+    driver were built from different data).  Any mismatch is a broken tie (infrastructure), never a failing input."""
+    if _translated_text is not None:
+        try:
+            ondisk = open(GEN_PATH).read()
+        except OSError as e:
+            ondisk = f'<{e}>'
+        ctx.count('integrity')
+        if ondisk == _translated_text:
+            ctx.agree('C19 generated-file integrity', 'C19 generated-file integrity')
+        else:
+            ctx.disagree('C19 generated-file integrity', 'sha256 ' + text_digest(ondisk)[:16], 'sha256 ' + text_digest(_translated_text)[:16] + ' (this run\'s translation)')
+    if ctx.proof.get('build_ok') is False:
+        import re
+        log = ctx.proof.get('build_log') or ''
+        failed = sorted(set(re.findall(r'(?:✖|error:)[^\n]*?((?:NumqiProps|NumqiModel|NumqiProofs|Driver)[./][A-Za-z0-9_./]+)', log)))
+        ctx.note('the first `lake build` of this run failed; modules named in its log: ' + (', '.join(failed[:8]) if failed else '(none recognisable; last line: %r)' % log.strip().split('\n')[-1][:200]))
+    thm = ctx.proof.get('theorems') or {}
+    for op, out in zip(ops, model):
+        t = op.split(' ')
+        if t[1] != 'checks' or len(out) != len(OBLIGATION_SUFFIX) or set(out) - set('01'):
+            continue
+        for bit, suf in zip(out, OBLIGATION_SUFFIX):
+            name = f'Numqi.C19.{t[2]}_{suf}'
+            if name not in thm:
+                continue
+            discharged = thm[name] is not None
+            ctx.count('integrity')
+            # only this direction is conclusive: one failing theorem takes its whole module with it, so "not discharged" while the
+            # driver says 1 is the normal picture for the other codes of a module that did not build
+            if not (discharged and bit == '0'):
+                ctx.agree(f'C19 theorem-vs-driver {name}', f'C19 theorem-vs-driver {name}')
+            else:
+                ctx.disagree(f'C19 theorem-vs-driver {name}',
+                             f'driver evaluates the obligation to {bit} on its compiled data: theorems and driver were not built from the same Generated/QecCircuits.lean',
+                             f'kernel: {"discharged" if discharged else "not discharged"}')
 
 
 def correspondence(ctx):
     codes = get_codes()
     ops = gen_ops(ctx, codes)
-    impl = [impl_op(op, codes) for op in ops]
-    model = common.run_model(ops, pid='C19')
+    import time
+    from concurrent.futures import ThreadPoolExecutor
+    # the compiled driver runs while the implementation side is evaluated; its two expensive kinds of op (weight enumerator of an
+    # 8-qubit code, the full KL table of a 10/11-qubit code) get a driver process of their own.  Same ops, same outputs, same order.
+    def heavy(op):
+        t = op.split(' ')
+        c = codes.get(t[2]) if len(t) > 2 else None
+        return isinstance(c, dict) and 'error' not in c and ((t[1] == 'wenum' and c['n'] >= 8) or (t[1] == 'klval' and c['n'] >= 10))
+    chunks = [[i] for i, op in enumerate(ops) if heavy(op)]
+    chunks.append([i for i, op in enumerate(ops) if not heavy(op)])
+    chunks = [ch for ch in chunks if ch]
+    t0 = time.time()
+    pool = ThreadPoolExecutor(max_workers=max(1, len(chunks)))
+    def run_chunk(ch):
+        t1 = time.time()
+        out = common.run_model([ops[i] for i in ch], pid='C19')
+        return out, time.time() - t1
+    futs = [pool.submit(run_chunk, ch) for ch in chunks]
+    tk = {}
+    impl = []
+    try:
+        for op in ops:
+            t1 = time.time()
+            impl.append(impl_op(op, codes))
+            k_ = op.split(' ')[1]
+            tk[k_] = tk.get(k_, 0.0) + time.time() - t1
+        t_impl = time.time() - t0
+        model = [None] * len(ops)
+        tdrv = []
+        for ch, fu in zip(chunks, futs):
+            out, dt = fu.result()
+            tdrv.append(round(dt, 1))
+            for i, o in zip(ch, out):
+                model[i] = o
+    finally:
+        pool.shutdown(wait=True)
+    ctx.extra['timing_correspondence_s'] = dict(wall=round(time.time() - t0, 1), impl=round(t_impl, 1), driver_processes=tdrv,
+                                                impl_by_op={k_: round(v, 1) for k_, v in sorted(tk.items(), key=lambda kv: -kv[1]) if v >= 0.5})
     trivial = lambda op, out: out not in ('', 'bad-op', 'none') and len(out) > 1
     common.compare(ctx, ops, impl, model, nontrivial=trivial)
+    integrity(ctx, codes, ops, model)
+    for c in codes.values():
+        if isinstance(c, dict) and c.get('error_kind') == 'translator':
+            ctx.disagree(f'C19 translate {c["fname"]}', 'a dict with encode / stabilizer circuits', f'the harness could not read the result of {c["fname"]}(): {c["error"]}')
+    if _degmat_how:
+        ctx.extra['degmat_gram_matrix'] = {f'{k[0]}:{k[1]}': v for k, v in sorted(_degmat_how.items())}
+        for k, v in sorted(_degmat_how.items()):
+            if not v.startswith('equal'):
+                ctx.note(f'degmat {k[0]} {k[1]}: {v}')
     # binary64 ceil vs exact rational ceil: record where they differ (Lean: float_ceil_bounds says differ by at most one, downwards)
     ndiff = 0
     for op, out in zip(ops, model):
@@ -1641,7 +1934,10 @@ def probe_weight_enumerator(ctx, c):
     name, n, K, d = c['name'], c['n'], c['K'], c['d']
     code = real_codewords(c)
     try:
-        A, B = numqi.qec.quantum_weight_enumerator(code)
+        if c['lname'] in _wenum_cache:
+            A, B = _wenum_cache[c['lname']]       # the same call on the same code words, made by the `wenum` tie of this run
+        else:
+            A, B = numqi.qec.quantum_weight_enumerator(code)
     except Exception as e:
         ctx.fail(f'{c["lname"]}:weight-enumerator', f'{name}: quantum_weight_enumerator raised {type(e).__name__}: {e}', dict(code=name, op='quantum_weight_enumerator')); return
     if n <= 4:
@@ -1672,11 +1968,65 @@ def probe_weight_enumerator(ctx, c):
 
 def guarded_section(ctx, name, f, *a):
     """a crash inside a probe section is a reported failure, never an internal error of the check"""
+    import time
+    t0 = time.time()
     try:
         f(*a)
     except Exception as ex:
         import traceback
         ctx.fail(f'probe-crash:{name}', f'probe section {name} raised {type(ex).__name__}: {ex}', dict(op='probe-section', section=name, traceback=traceback.format_exc()[-1500:]))
+    dt = time.time() - t0
+    if dt >= 0.5:
+        ctx.extra.setdefault('timing_probe_s', {})[name] = round(dt, 1)
+
+
+def f2_dependency(vecs):
+    """Gaussian elimination over F2 on integer bit vectors: (rank, indices of a dependent sub-family or None)"""
+    basis = []      # (reduced vector, set of original indices combined)
+    for i, v in enumerate(vecs):
+        comb = {i}
+        for b, bc in basis:
+            if v ^ b < v:
+                v ^= b; comb ^= bc
+        if v == 0:
+            return len(basis), sorted(comb)
+        basis.append((v, comb))
+    return len(basis), None
+
+
+def probe_listed_independent(ctx, c):
+    """the listed strings are independent, pairwise commuting Pauli operators, at most n - log2 K and at least as many as
+    shipped: together with "each fixes every code word" a list of n - log2 K of them generates the whole stabilizer group."""
+    listed = c.get('listed')
+    n, K = c['n'], c['K']
+    if listed is None or not all(len(s) == n and set(s) <= set('IXYZ') for s in listed):
+        return
+    k = K.bit_length() - 1
+    if 2 ** k != K:
+        ctx.note(f'{c["fname"]}: K = {K} is not a power of two; listed-string count not checked')
+        return
+    vec = lambda s: sum(((ch in 'XY') << q) | ((ch in 'YZ') << (n + q)) for q, ch in enumerate(s))
+    vs = [vec(s) for s in listed]
+    rank, dep = f2_dependency(vs)
+    key = f'{c["lname"]}:listed-independent'
+    rp = dict(code=c['name'], op='listed_strings', generator=c['fname'], listed=list(listed))
+    if dep is not None:
+        ctx.fail(key, f'{c["name"]}: the listed stabilizer strings are not independent: the product of {[listed[i] for i in dep]} is a scalar', dict(rp, dependent=[listed[i] for i in dep]))
+        return
+    if len(listed) > n - k:
+        ctx.fail(key, f'{c["name"]}: {len(listed)} listed stabilizer strings, an ((n,K)) = (({n},{K})) stabilizer code has n - log2 K = {n - k} generators', rp)
+        return
+    want = LISTED_COUNT.get(c['lname'])
+    if want is not None and len(listed) < want:
+        ctx.fail(f'{c["lname"]}:listed-count', f'{c["name"]}: {c["fname"]}() lists {len(listed)} stabilizer strings, the shipped code lists {want}', dict(rp, shipped_count=want))
+        return
+    sym = lambda a, b: bin(((a & ((1 << n) - 1)) & (b >> n)) ^ ((a >> n) & (b & ((1 << n) - 1)))).count('1') % 2
+    for i in range(len(vs)):
+        for j in range(i):
+            if sym(vs[i], vs[j]):
+                ctx.fail(key, f'{c["name"]}: listed strings {listed[j]} and {listed[i]} anticommute', dict(rp, pair=[listed[j], listed[i]]))
+                return
+    ctx.probe_ok((c['lname'], 'listed-independent'))
 
 
 def probe(ctx):
@@ -1684,12 +2034,19 @@ def probe(ctx):
     quick = ctx.quick()
     guarded_section(ctx, 'corpus', probe_corpus, ctx)
     for f in PINNED:
-        if f not in codes.get('__discovered__', []):
+        # a shipped generator is "missing" only when the PUBLIC name numqi.qec.<f> is gone (private modules may be renamed freely)
+        if f not in codes.get('__public__', []):
             ctx.fail(f'{PINNED[f][0]}:constructor', f'shipped generator numqi.qec.{f} no longer exists', dict(op='constructor', generator=f))
+        else:
+            ctx.probe_ok((PINNED[f][0], 'public-name'))
     for _, lname in CODES:
         c = codes.get(lname)
         if c is None or 'error' in c:
-            ctx.fail(f'{lname}:constructor', f'{lname}: constructor failed: {(c or {}).get("error")}', dict(op='constructor', code=lname))
+            kind = (c or {}).get('error_kind')
+            if kind == 'constructor':
+                ctx.fail(f'{lname}:constructor', f'{lname}: numqi.qec.{c["fname"]}() raises {c["error"]}', dict(op='constructor', code=lname, generator=c['fname']))
+            elif kind == 'translator':
+                ctx.note(f'{lname}: the harness could not read the result of {c["fname"]}() ({c["error"]}): reported as a broken tie, not as a failing input')
             continue
         pin = PINNED.get(c['fname'])
         if pin is None:
@@ -1700,6 +2057,7 @@ def probe(ctx):
                      dict(op='parameters', generator=c['fname'], reported=dict(name=c['name'], n=c['n'], K=c['K'], d=c['d']), shipped=list(pin[1])))
         else:
             ctx.probe_ok((lname, 'params'))
+        guarded_section(ctx, f'listed-independent:{lname}', probe_listed_independent, ctx, c)
         if c['n'] > 12:
             ctx.note(f'{c["fname"]}: {c["n"]} qubits, brute-force probe skipped')
             continue
